@@ -86,14 +86,10 @@ SIG = lambda f: (r"\bFAST\(%s\)\(" % f[:-5]) if f.endswith("_fast") else (r"\b(S
 # memNeg/memXor/memXor2/memSwap (writers whose cursor is a parameter) exhaust the solver in the loop havoc (measured: SAT out of
 # memory at 8 GB even for a 1 KiB cap); they stay bounded (C05 mem.* groups).
 ANN_MEM = {
-    "memNeg": [PW(["buf"], OBJ("buf")), PW(["buf"], OBJ("buf"))],
     "memEq": [PW(["buf1", "buf2"], "diff"), PW(["buf1", "buf2"], "diff")],
     "memIsZero": [PW(["buf"], "diff"), PW(["buf"], "diff")],
     "memIsZero_fast": [PW(["buf"]), PW(["buf"])],
     "memIsRep": [PW(["buf"], "diff")], "memIsRep_fast": [PW(["buf"])],
-    "memXor": [PW(["dest", "src1", "src2"], OBJ("dest")), PW(["dest", "src1", "src2"], OBJ("dest"))],
-    "memXor2": [PW(["dest", "src"], OBJ("dest")), PW(["dest", "src"], OBJ("dest"))],
-    "memSwap": [PW(["buf1", "buf2"], OBJ("buf1", "buf2")), PW(["buf1", "buf2"], OBJ("buf1", "buf2"))],
 }
 LOOPS_MEM = {
     "memNonZeroSize": [L("count", "count <= __CPROVER_loop_entry(count)", "count")],
